@@ -5,13 +5,20 @@ Three kinds of cases, all on the REAL class kappadata.caching.shared_dict_datase
  seq    random sequential histories (get / repeated get / dispose / shared_dict.clear() / len, negative and
         out-of-range indices, np.int64 indices) over several holders of one cache (copy.copy / pickle round trip of
         the dataset object: all talk to the same REAL multiprocessing.Manager dict) and several independent caches
-        over one base; load-counting base dataset, ticket-issuing transform.
+        over one base; load-counting base dataset that builds a FRESH sample object per access; the post-cache transform
+        is absent / wraps the sample with a ticket / modifies the sample IN PLACE (ticket-dependent) and returns it;
+        "mut" commands: the holder modifies, in place, the sample its last access returned.
  sched  2-4 logical processes (readers / clearers) whose individual dict operations are interleaved
         deterministically by an explicit schedule: `Manager` in the module under test is replaced by a factory of a
-        scheduling dict (value semantics through pickle like the real proxy); every dict operation and every access
+        scheduling dict (values are transported exactly like through the real proxy's connection: multiprocessing's
+        ForkingPickler, i.e. torch tensors as shared-memory handles, everything else by value); every dict operation and every access
         of the wrapped dataset is a scheduling point; each logical process runs in its own thread and holds the
         baton only while the schedule says so (explicit hand-over, timeouts everywhere).
- procs  (thorough) real forked processes hammering the real Manager dict; order unknown -> order-free checks only.
+ procs  real forked processes hammering the real Manager dict (quick: 4 small cases); the global order is unknown -> the
+        spec is checked order-free, and every process records its own atomic steps (proxy operations with result and
+        monotonic-clock interval, loads, ...): the harness searches an interleaving of these steps that respects real time
+        and under which the model takes exactly these steps; Coq then replays the model on that schedule and compares
+        every process' event sequence and the final cache content (linearisability w.r.t. the model).
 """
 import copy
 import itertools
@@ -31,37 +38,63 @@ SHARD = 400
 ALLOWED_AXIOMS = []
 TRUSTED = [
     "hand-written model coq/C19/Model.v of SharedDictDataset._cached_getitem / dispose and CachedDataset.__getitem__ / "
-    "__len__ (repaired code); tied to KD_REPO by this run's correspondence evaluation: complete event logs (loads, "
-    "clears, returns with values and transform call numbers, len) and final dict contents compared",
-    "multiprocessing.Manager().dict(): every proxy operation (`in`, `[]`, `[]=`, clear) is atomic and by value "
-    "(pickle round trip); exercised against the real Manager in the seq cases and, thorough tier, by real processes",
+    "__len__ (repaired code) over an object store (addresses, in-place writes, by-value / by-reference transport); tied to "
+    "KD_REPO by this run's correspondence evaluation: complete event logs (loads, clears, returns with the content at return "
+    "time and transform call numbers, len, consumer writes) and final dict contents compared",
+    "multiprocessing.Manager().dict(): every proxy operation (`in`, `[]`, `[]=`, clear) is atomic; values travel through "
+    "ForkingPickler: torch tensors by shared-memory handle (model: byref), everything else by value; exercised against the "
+    "real Manager in the seq cases and by real processes (procs cases: a model schedule explaining the per-process step logs "
+    "is searched by the harness and checked by Coq)",
     "harness/c19.py: scheduling dict + baton (one logical process runs at a time, a scheduling point before every dict "
-    "operation and every wrapped-dataset access), payload encoding/decoding into integer ids, ticket transform",
-    "pickling is assumed faithful: observational equality is equality by value of the decoded payload",
+    "operation and every wrapped-dataset access), payload encoding/decoding into integer ids, ticket / in-place transforms, "
+    "the schedule search of the procs cases (untrusted: its result is re-checked by Coq; a miss shows up as drift)",
+    "one integer stands for a whole sample: a sample mixing tensors (by reference) and other parts (by value) is modelled as "
+    "by-reference; under the repaired code the transport makes no observable difference (that is the theorem)",
     "an access of the wrapped dataset is one atomic step and has no effect other than producing the sample",
 ]
 ASSUMPTIONS = [
-    "the wrapped dataset is a pure function of the index (or raises, e.g. IndexError); payloads can be pickled",
+    "the wrapped dataset is a pure function of the index (or raises, e.g. IndexError) and returns a fresh object per access; "
+    "payloads can be pickled and deep-copied",
     "indices are hashable and equal indices hash equally (int, np.int64); -1 and n-1 are different cache keys of equal samples",
-    "the transform may be stateful/random: its k-th call in a process is an arbitrary recorded draw; it does not raise",
+    "the transform may be stateful/random and may work in place: its k-th call in a process is an arbitrary recorded draw; "
+    "it does not raise; consumers may modify the samples they received in place",
     "processes do nothing to the shared dict except through cached[i], dispose() and shared_dict.clear()",
 ]
-RULE = ("seq 40% / sched 60% (thorough: + every schedule over {reader, reader, clearer} up to length 8 for three "
-        "program sets + real-process cases); datasets of 0-6 samples of 10 payload types, indices in -n-1..n incl. "
+RULE = ("seq 25% / sched 75% + 4 real-process cases + directed aliasing / falsy-payload cases (thorough: + every schedule over "
+        "{reader, reader, clearer} up to length 8 for four program sets, one of them with tensors, in-place transform and a "
+        "consumer write + 36 real-process cases); datasets of 0-6 samples of 10 payload types, indices in -n-1..n incl. "
         "repeats, 1-4 holders on 1-2 caches, transform on 80%; schedules of 0-40 steps over 2-4 processes with "
         "programs of 1-4 commands on 1-3 hot indices; non-trivial = seq: a cache hit and a reload after a clear in one "
         "history / sched: a process switch in the middle of an access; distinct by (history) resp. (programs, effective schedule)")
 
-PTYPES = ["int", "str", "tuple", "dict", "ndarray", "tensor", "bytes", "nested", "list", "float"]
+PTYPES = ["int", "str", "tuple", "dict", "ndarray", "tensor", "bytes", "nested", "list", "float",
+          "dict_t", "list_t", "nested_t", "tensor_f", "falsy"]
+BYREF = {"tuple", "tensor", "dict_t", "list_t", "nested_t", "tensor_f"}   # contain torch tensors: shared-memory transport
 GARBAGE = 999          # id code of a payload that does not decode
 T_STEP = 20.0          # seconds a logical process / the controller waits for the baton before giving up
 TICKETS = 200          # tickets of process p are p*TICKETS + k
+N_FALSY = 11
+
+
+def tf_mode(case):
+    """None = no transform, "ticket" = wraps the sample (new object referring to the sample), "inplace" = modifies the
+    sample in place and returns it"""
+    if "tf" in case:
+        return case["tf"]
+    return "ticket" if case["has_tf"] else None
 
 
 # ---------------------------------------------------------------------------
 # payloads: built from an integer id, decoded back strictly
 # ---------------------------------------------------------------------------
+def falsy_table():
+    import numpy as np
+    import torch
+    return [None, 0, "", (), False, torch.empty(0), 0.0, b"", [], {}, np.zeros(0)]
+
+
 def make_payload(ptype, k):
+    """a FRESH object on every call"""
     import numpy as np
     import torch
     if ptype == "int":
@@ -69,13 +102,15 @@ def make_payload(ptype, k):
     if ptype == "str":
         return "s%d" % k
     if ptype == "tuple":
-        return (torch.tensor([k, k + 1]), k % 10)
+        return (torch.tensor([k, k + 1]), k)
     if ptype == "dict":
         return {"x": k, "meta": [k, "a"]}
     if ptype == "ndarray":
         return np.full((2, 2), k, dtype=np.int64)
     if ptype == "tensor":
         return torch.arange(3) + k
+    if ptype == "tensor_f":
+        return torch.full((2, 2), float(k), dtype=torch.float32)
     if ptype == "bytes":
         return b"b%d" % k
     if ptype == "nested":
@@ -84,6 +119,14 @@ def make_payload(ptype, k):
         return [k, [k, k]]
     if ptype == "float":
         return k + 0.5
+    if ptype == "dict_t":
+        return {"x": torch.tensor([k, k]), "y": k}
+    if ptype == "list_t":
+        return [torch.tensor(k), np.array([k, k], dtype=np.int64)]
+    if ptype == "nested_t":
+        return ((torch.tensor([k]),), {"k": [torch.tensor([[k]]), None]})
+    if ptype == "falsy":
+        return falsy_table()[k]
     raise ValueError(ptype)
 
 
@@ -91,15 +134,19 @@ def payload_id(ptype, o):
     """the id a payload was built from, None if it is not exactly such a payload"""
     import numpy as np
     import torch
+
+    def tens(t, shape):
+        return torch.is_tensor(t) and tuple(t.shape) == shape and t.dtype == torch.int64
+
     try:
         if ptype == "int":
             return o if type(o) is int else None
         if ptype == "str":
             return int(o[1:]) if type(o) is str and o[:1] == "s" else None
         if ptype == "tuple":
-            if type(o) is tuple and len(o) == 2 and torch.is_tensor(o[0]) and o[0].shape == (2,) and type(o[1]) is int:
+            if type(o) is tuple and len(o) == 2 and tens(o[0], (2,)) and type(o[1]) is int:
                 k = int(o[0][0])
-                return k if int(o[0][1]) == k + 1 and o[1] == k % 10 else None
+                return k if int(o[0][1]) == k + 1 and o[1] == k else None
             return None
         if ptype == "dict":
             if type(o) is dict and set(o) == {"x", "meta"} and type(o["x"]) is int and o["meta"] == [o["x"], "a"]:
@@ -110,9 +157,14 @@ def payload_id(ptype, o):
                 return int(o[0, 0])
             return None
         if ptype == "tensor":
-            if torch.is_tensor(o) and o.shape == (3,) and o.dtype == torch.int64:
+            if tens(o, (3,)):
                 k = int(o[0])
                 return k if o.tolist() == [k, k + 1, k + 2] else None
+            return None
+        if ptype == "tensor_f":
+            if torch.is_tensor(o) and tuple(o.shape) == (2, 2) and o.dtype == torch.float32 and bool((o == o[0, 0]).all()):
+                k = float(o[0, 0])
+                return int(k) if k == int(k) else None
             return None
         if ptype == "bytes":
             return int(o[1:]) if type(o) is bytes and o[:1] == b"b" else None
@@ -127,6 +179,33 @@ def payload_id(ptype, o):
             return None
         if ptype == "float":
             return int(o - 0.5) if type(o) is float and o - 0.5 == int(o - 0.5) else None
+        if ptype == "dict_t":
+            if type(o) is dict and set(o) == {"x", "y"} and tens(o["x"], (2,)) and type(o["y"]) is int:
+                return o["y"] if o["x"].tolist() == [o["y"], o["y"]] else None
+            return None
+        if ptype == "list_t":
+            if (type(o) is list and len(o) == 2 and tens(o[0], ()) and isinstance(o[1], np.ndarray)
+                    and o[1].dtype == np.int64 and o[1].shape == (2,)):
+                k = int(o[0])
+                return k if o[1].tolist() == [k, k] else None
+            return None
+        if ptype == "nested_t":
+            if (type(o) is tuple and len(o) == 2 and type(o[0]) is tuple and len(o[0]) == 1 and tens(o[0][0], (1,))
+                    and type(o[1]) is dict and set(o[1]) == {"k"} and type(o[1]["k"]) is list and len(o[1]["k"]) == 2
+                    and tens(o[1]["k"][0], (1, 1)) and o[1]["k"][1] is None):
+                k = int(o[0][0][0])
+                return k if int(o[1]["k"][0][0, 0]) == k else None
+            return None
+        if ptype == "falsy":
+            for k, f in enumerate(falsy_table()):
+                if type(o) is not type(f):
+                    continue
+                if torch.is_tensor(f) or isinstance(f, np.ndarray):
+                    if tuple(o.shape) == tuple(f.shape) and o.dtype == f.dtype:
+                        return k
+                elif o == f:
+                    return k
+            return None
     except Exception:
         return None
     return None
@@ -137,17 +216,52 @@ def id_code(ptype, o):
     return GARBAGE if k is None or not (0 <= k < GARBAGE) else k
 
 
-def result_code(ptype, has_tf, r):
-    """integer code of what cached[i] returned: 1000*(ticket+1) + id with a transform, id without"""
-    if not has_tf:
-        return id_code(ptype, r)
-    if type(r) is tuple and len(r) == 3 and r[0] == "T" and type(r[1]) is int and r[1] >= 0:
-        return 1000 * (r[1] + 1) + id_code(ptype, r[2])
-    return -1
+def mutate(o, delta):
+    """add delta to every number inside o, IN PLACE wherever the object allows it (tensors, arrays, lists, dicts);
+    immutable parts are rebuilt.  Returns the (same, if mutable) object."""
+    import re
+    import numpy as np
+    import torch
+    if torch.is_tensor(o):
+        return o.add_(delta) if o.numel() else o
+    if isinstance(o, np.ndarray):
+        o += delta
+        return o
+    if type(o) is list:
+        for j in range(len(o)):
+            o[j] = mutate(o[j], delta)
+        return o
+    if type(o) is dict:
+        for key in list(o):
+            o[key] = mutate(o[key], delta)
+        return o
+    if type(o) is tuple:
+        return tuple(mutate(x, delta) for x in o)
+    if type(o) is int:
+        return o + delta
+    if type(o) is float:
+        return o + delta
+    if type(o) is str and re.fullmatch(r"s\d+", o):
+        return "s%d" % (int(o[1:]) + delta)
+    if type(o) is bytes and re.fullmatch(rb"b\d+", o):
+        return b"b%d" % (int(o[1:]) + delta)
+    return o
+
+
+def result_code(ptype, mode, r):
+    """integer code of what cached[i] returned, computed at the moment it returns: 1000*(ticket+1) + id with a
+    transform (the in-place transform adds 1000*(ticket+1) to every number of the sample), id without"""
+    if mode == "ticket":
+        if type(r) is tuple and len(r) == 3 and r[0] == "T" and type(r[1]) is int and r[1] >= 0:
+            return 1000 * (r[1] + 1) + id_code(ptype, r[2])
+        return -1
+    k = payload_id(ptype, r)
+    return -1 if k is None or k < 0 else k
 
 
 class Ticket:
     """post-cache transform: wraps the sample together with a fresh ticket (stateful like an augmentation)"""
+    inplace = False
 
     def __init__(self, pid):
         self.pid = pid
@@ -159,29 +273,67 @@ class Ticket:
         return ("T", t, sample)
 
 
-class CountingBase:
-    """the wrapped dataset: a Python list of payloads; every access is logged (and is a scheduling point)"""
+class InplaceTicket(Ticket):
+    """post-cache transform that works in place (like x.sub_(mean).div_(std)): adds 1000*(ticket+1)"""
+    inplace = True
 
-    def __init__(self, payloads, log, pid, baton=None):
-        self.payloads = payloads
+    def __call__(self, sample):
+        t = self.pid * TICKETS + len(self.issued)
+        self.issued.append(t)
+        return mutate(sample, 1000 * (t + 1))
+
+
+def make_tf(mode, pid):
+    return None if mode is None else Ticket(pid) if mode == "ticket" else InplaceTicket(pid)
+
+
+class CountingBase:
+    """the wrapped dataset: position -> payload id, a FRESH payload object is built on every access; every access is
+    logged (and is a scheduling point)"""
+
+    def __init__(self, ptype, ids, log, pid, baton=None, steps=None):
+        self.ptype = ptype
+        self.ids = list(ids)
         self.log = log
         self.pid = pid
         self.baton = baton
+        self.steps = steps
 
     def __len__(self):
-        return len(self.payloads)
+        return len(self.ids)
 
     def __getitem__(self, idx):
+        import time
         if self.baton is not None:
             self.baton.point(self.pid)
+        t0 = time.monotonic_ns()
         self.log.append(["L", self.pid, int(idx)])
-        return self.payloads[idx]
+        try:
+            k = self.ids[idx]
+        except IndexError:
+            if self.steps is not None:
+                self.steps.append(["load", int(idx), False, t0, time.monotonic_ns()])
+            raise
+        if self.steps is not None:
+            self.steps.append(["load", int(idx), True, t0, time.monotonic_ns()])
+        return make_payload(self.ptype, k)
 
 
 # ---------------------------------------------------------------------------
 # one command of one holder on the real object
 # ---------------------------------------------------------------------------
-def do_op(log, p, ds, op, nret, baton=None):
+class Holder:
+    """what the harness keeps per holder / process: ptype + transform mode (to encode results when they are returned),
+    the sample of the last successful access (for "mut")"""
+
+    def __init__(self, ptype, mode):
+        self.ptype, self.mode = ptype, mode
+        self.last = None
+        self.has_last = False
+
+
+def do_op(log, p, ds, op, nret, hold, baton=None, steps=None):
+    import time
     import numpy as np
     name = op[0]
     if name == "get":
@@ -202,7 +354,8 @@ def do_op(log, p, ds, op, nret, baton=None):
             log.append(["R", p, i, k, "X:" + type(e).__name__])
             return
         nret[p] += 1
-        log.append(["R", p, i, k, ("ok", r)])  # the payload is replaced by its code in finish_log
+        log.append(["R", p, i, k, ["V", result_code(hold.ptype, hold.mode, r)]])   # encoded NOW: later writes must not show
+        hold.last, hold.has_last = r, True
     elif name == "dispose":
         ds.dispose()
         log.append(["C", p])
@@ -212,18 +365,29 @@ def do_op(log, p, ds, op, nret, baton=None):
     elif name == "len":
         if baton is not None:
             baton.point(p)
+        t0 = time.monotonic_ns()
         log.append(["N", p, len(ds)])
+        if steps is not None:
+            steps.append(["len", None, None, t0, time.monotonic_ns()])
+    elif name == "mut":
+        # the consumer modifies, in place, everything reachable from what its last access returned
+        if baton is not None:
+            baton.point(p)
+        t0 = time.monotonic_ns()
+        if hold.has_last:
+            r = hold.last
+            hold.last = mutate(r[2] if hold.mode == "ticket" else r, op[1])
+            if hold.mode == "ticket":
+                hold.last = ("T", r[1], hold.last)
+        log.append(["M", p])
+        if steps is not None:
+            steps.append(["mut", None, None, t0, time.monotonic_ns()])
     else:
         raise ValueError(name)
 
 
-def finish_log(log, ptype, has_tf):
-    out = []
-    for e in log:
-        if e[0] == "R" and isinstance(e[4], tuple):
-            e = e[:4] + [["V", result_code(ptype, has_tf, e[4][1])]]
-        out.append(e)
-    return out
+def finish_log(log):
+    return [list(e) for e in log]
 
 
 def dict_content(ptype, d):
@@ -257,8 +421,7 @@ def shared_manager():
 
 def run_seq(case):
     import kappadata.caching.shared_dict_dataset as mod
-    ptype, has_tf = case["ptype"], case["has_tf"]
-    payloads = [make_payload(ptype, k) for k in case["ids"]]
+    ptype, mode = case["ptype"], tf_mode(case)
     log = []
     firsts = {}
     handles = []
@@ -269,10 +432,10 @@ def run_seq(case):
         mod.Manager = shared_manager
     try:
         for p, (c, how) in enumerate(zip(case["handles"], case["how"])):
-            base = CountingBase(payloads, log, p)
-            tf = Ticket(p) if has_tf else None
+            base = CountingBase(ptype, case["ids"], log, p)
+            tf = make_tf(mode, p)
             if c not in firsts:
-                ds = (mod.SharedDictDataset(base, transform=tf) if has_tf or how == "kw"
+                ds = (mod.SharedDictDataset(base, transform=tf) if tf is not None or how == "kw"
                       else mod.SharedDictDataset(base))
                 firsts[c] = ds
             else:
@@ -283,8 +446,9 @@ def run_seq(case):
             handles.append(ds)
             tfs.append(tf)
         nret = [0] * len(handles)
+        holds = [Holder(ptype, mode) for _ in handles]
         for op in case["hist"]:
-            do_op(log, op[0], handles[op[0]], op[1:], nret)
+            do_op(log, op[0], handles[op[0]], op[1:], nret, holds[op[0]])
         dicts = [dict_content(ptype, firsts[c].shared_dict.copy()) for c in sorted(firsts)]
     finally:
         mod.Manager = real_manager
@@ -295,8 +459,7 @@ def run_seq(case):
                     ds.shared_dict._manager.shutdown()
                 except Exception:
                     pass
-    return {"log": finish_log(log, ptype, has_tf), "dicts": dicts,
-            "draws": [tf.issued if tf else [] for tf in tfs]}
+    return {"log": finish_log(log), "dicts": dicts, "draws": [tf.issued if tf else [] for tf in tfs]}
 
 
 # ---------------------------------------------------------------------------
@@ -358,9 +521,18 @@ class Baton:
         return True
 
 
+def xfer(v):
+    """one trip through a Manager connection: multiprocessing pickles with ForkingPickler, for which torch registers its
+    shared-memory reductions (a tensor arrives as a view of the SAME memory; storing moves the sender's storage into
+    shared memory in place); everything else travels by value"""
+    from multiprocessing.reduction import ForkingPickler
+    return pickle.loads(bytes(ForkingPickler.dumps(v)))
+
+
 class SchedDict:
     """what logical process `pid` sees of the shared dict: every operation is one scheduling point and one atomic
-    operation on the common store; values go through pickle like with the Manager proxy"""
+    operation on the common store (which plays the manager process: it holds the objects as they arrived); values are
+    transported like through the Manager proxy's connection (xfer)"""
 
     def __init__(self, store, baton, pid, ops):
         self._store, self._baton, self._pid, self._ops = store, baton, pid, ops
@@ -381,11 +553,11 @@ class SchedDict:
             self._ops[-1].append(False)
             raise KeyError(k)
         self._ops[-1].append(True)
-        return pickle.loads(self._store[k])
+        return xfer(self._store[k])
 
     def __setitem__(self, k, v):
         self._pt("set", k)
-        self._store[k] = pickle.dumps(v)
+        self._store[k] = xfer(v)
 
     def __delitem__(self, k):
         self._pt("del", k)
@@ -401,18 +573,18 @@ class SchedDict:
 
     def get(self, k, default=None):
         self._pt("get?", k)
-        return pickle.loads(self._store[k]) if k in self._store else default
+        return xfer(self._store[k]) if k in self._store else default
 
     def setdefault(self, k, default=None):
         self._pt("setdefault", k)
         if k not in self._store:
-            self._store[k] = pickle.dumps(default)
-        return pickle.loads(self._store[k])
+            self._store[k] = xfer(default)
+        return xfer(self._store[k])
 
     def pop(self, k, *default):
         self._pt("pop", k)
         if k in self._store:
-            return pickle.loads(self._store.pop(k))
+            return xfer(self._store.pop(k))
         if default:
             return default[0]
         raise KeyError(k)
@@ -426,7 +598,7 @@ class SchedDict:
 
     def copy(self):
         self._pt("copy")
-        return {k: pickle.loads(v) for k, v in self._store.items()}
+        return {k: xfer(v) for k, v in self._store.items()}
 
     def items(self):
         return list(self.copy().items())
@@ -437,13 +609,12 @@ class SchedDict:
     def update(self, other):
         self._pt("update")
         for k, v in dict(other).items():
-            self._store[k] = pickle.dumps(v)
+            self._store[k] = xfer(v)
 
 
 def run_sched(case):
     import kappadata.caching.shared_dict_dataset as mod
-    ptype, has_tf = case["ptype"], case["has_tf"]
-    payloads = [make_payload(ptype, k) for k in case["ids"]]
+    ptype, mode = case["ptype"], tf_mode(case)
     progs = case["progs"]
     n = len(progs)
     log, ops, store = [], [], {}
@@ -453,27 +624,28 @@ def run_sched(case):
         def dict(self):
             return SchedDict(store, baton, 0, ops)
 
-    tfs = [Ticket(p) if has_tf else None for p in range(n)]
+    tfs = [make_tf(mode, p) for p in range(n)]
     real_manager = mod.Manager
     mod.Manager = FakeManager
     try:
-        ds0 = mod.SharedDictDataset(CountingBase(payloads, log, 0, baton), transform=tfs[0])
+        ds0 = mod.SharedDictDataset(CountingBase(ptype, case["ids"], log, 0, baton), transform=tfs[0])
     finally:
         mod.Manager = real_manager
     handles = [ds0]
     for p in range(1, n):
         ds = copy.copy(ds0)
-        ds.dataset = CountingBase(payloads, log, p, baton)
+        ds.dataset = CountingBase(ptype, case["ids"], log, p, baton)
         ds.transform = tfs[p]
         ds.shared_dict = SchedDict(store, baton, p, ops)
         handles.append(ds)
+    holds = [Holder(ptype, mode) for _ in range(n)]
     nret = [0] * n
     crashed = []
 
     def body(p):
         try:
             for op in progs[p]:
-                do_op(log, p, handles[p], op, nret, baton)
+                do_op(log, p, handles[p], op, nret, holds[p], baton)
         except Abort:
             pass
         except BaseException as e:  # harness bug
@@ -501,45 +673,115 @@ def run_sched(case):
             t.join(timeout=T_STEP)
     if hang or crashed or any(t.is_alive() for t in threads):
         return {"harness_exception": hang or "; ".join(crashed) or "a logical process did not terminate"}
-    content = dict_content(ptype, {k: pickle.loads(v) for k, v in store.items()})
-    return {"log": finish_log(log, ptype, has_tf), "dicts": [content], "draws": [tf.issued if tf else [] for tf in tfs],
-            "effective": effective, "ops": ops, "finished": [len([e for e in log if e[1] == p and e[0] in "RCN"]) == len(progs[p])
+    content = dict_content(ptype, dict(store))
+    return {"log": finish_log(log), "dicts": [content], "draws": [tf.issued if tf else [] for tf in tfs],
+            "effective": effective, "ops": ops, "finished": [len([e for e in log if e[1] == p and e[0] in "RCNM"]) == len(progs[p])
                                                            for p in range(n)]}
 
 
 # ---------------------------------------------------------------------------
 # kind "procs": real processes on the real Manager dict
 # ---------------------------------------------------------------------------
-def _worker(p, ds, blob, ptype, has_tf, payloads, prog, barrier, q):
+class LogProxy:
+    """wraps the REAL Manager dict proxy of one process: forwards every operation and records it as one atomic step
+    [name, key, result, t0, t1] with the (system-wide) monotonic clock read right before and right after the round trip"""
+
+    def __init__(self, proxy, steps):
+        self._proxy, self._steps = proxy, steps
+
+    def _rec(self, name, key, res, t0):
+        import time
+        try:
+            key = int(key) if key is not None else None
+        except Exception:
+            key = 99999
+        self._steps.append([name, key, res, t0, time.monotonic_ns()])
+
+    def __contains__(self, k):
+        import time
+        t0 = time.monotonic_ns()
+        r = k in self._proxy
+        self._rec("in", k, bool(r), t0)
+        return r
+
+    def __getitem__(self, k):
+        import time
+        t0 = time.monotonic_ns()
+        try:
+            r = self._proxy[k]
+        except KeyError:
+            self._rec("get", k, False, t0)
+            raise
+        self._rec("get", k, True, t0)
+        return r
+
+    def __setitem__(self, k, v):
+        import time
+        t0 = time.monotonic_ns()
+        self._proxy[k] = v
+        self._rec("set", k, None, t0)
+
+    def clear(self):
+        import time
+        t0 = time.monotonic_ns()
+        self._proxy.clear()
+        self._rec("clear", None, None, t0)
+
+    def __getattr__(self, name):          # any other dict operation: forwarded, recorded under its own name
+        import time
+        attr = getattr(self._proxy, name)
+        if not callable(attr):
+            return attr
+
+        def call(*a, **kw):
+            t0 = time.monotonic_ns()
+            try:
+                return attr(*a, **kw)
+            finally:
+                self._rec("other:" + name, a[0] if a and isinstance(a[0], int) else None, None, t0)
+        return call
+
+    def __len__(self):
+        return self.__getattr__("__len__")()
+
+    def __delitem__(self, k):
+        return self.__getattr__("__delitem__")(k)
+
+    def __iter__(self):
+        return iter(self.__getattr__("keys")())
+
+
+def _worker(p, ds, blob, ptype, mode, ids, prog, barrier, q):
     try:
         if blob is not None:
             ds = pickle.loads(blob)
-        log = []
-        ds.dataset = CountingBase(payloads, log, p)
-        tf = Ticket(p) if has_tf else None
+        log, steps = [], []
+        ds.dataset = CountingBase(ptype, ids, log, p, steps=steps)
+        tf = make_tf(mode, p)
         ds.transform = tf
+        ds.shared_dict = LogProxy(ds.shared_dict, steps)
         nret = {p: 0}
+        hold = Holder(ptype, mode)
         try:
             barrier.wait(timeout=30)
         except Exception:
             pass
         for op in prog:
-            do_op(log, p, ds, op, nret)
-        q.put((p, finish_log(log, ptype, has_tf), tf.issued if tf else [], None))
+            do_op(log, p, ds, op, nret, hold, steps=steps)
+        q.put((p, finish_log(log), tf.issued if tf else [], steps, None))
     except BaseException as e:
-        q.put((p, [], [], repr(e)))
+        q.put((p, [], [], [], repr(e)))
 
 
 def run_procs(case):
     import multiprocessing as mp
     import queue as queue_mod
     from kappadata.caching.shared_dict_dataset import SharedDictDataset
-    ptype, has_tf = case["ptype"], case["has_tf"]
-    payloads = [make_payload(ptype, k) for k in case["ids"]]
+    ptype, mode = case["ptype"], tf_mode(case)
     progs = case["progs"]
     n = len(progs)
     ctx = mp.get_context("fork")
-    ds = SharedDictDataset(CountingBase(payloads, [], 0), transform=Ticket(0) if has_tf else None)
+    ds = SharedDictDataset(CountingBase(ptype, case["ids"], [], 0), transform=make_tf(mode, 0))
     workers = []
     q = ctx.Queue()
     barrier = ctx.Barrier(n)
@@ -548,19 +790,19 @@ def run_procs(case):
     try:
         blob = pickle.dumps(ds) if case.get("pickled") else None
         for p in range(n):
-            w = ctx.Process(target=_worker, args=(p, None if blob else ds, blob, ptype, has_tf, payloads, progs[p], barrier, q),
+            w = ctx.Process(target=_worker, args=(p, None if blob else ds, blob, ptype, mode, case["ids"], progs[p], barrier, q),
                             daemon=True)
             w.start()
             workers.append(w)
         for _ in range(n):
             try:
-                p, log, issued, e = q.get(timeout=120)
+                p, log, issued, steps, e = q.get(timeout=120)
             except queue_mod.Empty:
                 err = "a worker process did not report within 120 s"
                 break
             if e:
                 err = "worker %d: %s" % (p, e)
-            got[p] = (log, issued)
+            got[p] = (log, issued, steps)
         content = dict_content(ptype, ds.shared_dict.copy()) if err is None else []
     finally:
         for w in workers:
@@ -575,7 +817,142 @@ def run_procs(case):
     if err:
         return {"harness_exception": err}
     log = [e for p in range(n) for e in got[p][0]]
-    return {"log": log, "dicts": [content], "draws": [got[p][1] for p in range(n)]}
+    steps = [got[p][2] for p in range(n)]
+    final_keys = frozenset(k for k, _ in content)
+    status, sched, nodes = find_schedule(progs, steps, len(case["ids"]), final_keys, realtime=True)
+    realtime = True
+    if status == "none":                  # should not happen (the Manager serves requests atomically); be sure it is not the clocks
+        status2, sched2, nodes2 = find_schedule(progs, steps, len(case["ids"]), final_keys, realtime=False)
+        nodes += nodes2
+        if status2 == "found":
+            status, sched, realtime = status2, sched2, False
+    return {"log": log, "dicts": [content], "draws": [got[p][1] for p in range(n)],
+            "lin": status, "lin_realtime": realtime, "lin_nodes": nodes, "sched": sched,
+            "nsteps": [len(st) for st in steps],
+            "overlaps": _count_overlaps(steps)}
+
+
+def _count_overlaps(steps):
+    """number of proxy operations of different processes whose intervals overlap (the schedule search has a choice there)"""
+    evs = sorted((st[3], st[4], p) for p, ss in enumerate(steps) for st in ss if st[0] in ("in", "get", "set", "clear"))
+    n = 0
+    for a, b in zip(evs, evs[1:]):
+        if a[2] != b[2] and b[0] < a[1]:
+            n += 1
+    return n
+
+
+# ---------------------------------------------------------------------------
+# procs: search a schedule of the model that explains the recorded per-process steps
+# ---------------------------------------------------------------------------
+def find_schedule(progs, steps, n_ids, final_keys, realtime=True, budget=400000):
+    """Mirror of the control flow of coq/C19/Model.v pstep (repaired reader) on the key set only.  The recorded steps of
+    process p are (kind, key, result, t0, t1) in program order; a schedule is an interleaving of all recorded steps such
+    that (a) the model, run on this interleaving, performs for every process exactly its recorded step kinds/keys,
+    (b) every recorded result of `in` / `[]` / load agrees with the model state at that point and the final key set is the
+    observed one, (c) realtime: a step that was finished before another one began comes first.  Returns (status, schedule, nodes): "found" / "none" (exhaustive
+    search failed) / "mismatch" (a process' recorded steps are not steps the model could ever take: drift) / "budget".
+    The result is NOT trusted: Coq replays the model on the schedule and compares events and final cache content."""
+    nproc = len(progs)
+
+    def expected_step(p, pcs, ci):
+        """(kind, key) the model takes next for process p"""
+        pc = pcs[p]
+        if pc[0] == "start":
+            if ci[p] >= len(progs[p]):
+                return None
+            op = progs[p][ci[p]]
+            if op[0] == "get":
+                return ("in", op[1])
+            if op[0] in ("dispose", "clear"):
+                return ("clear", None)
+            return (op[0], None)
+        return ({"miss": "load", "set": "set", "hit": "get"}[pc[0]], pc[1])
+
+    def apply(state, p):
+        pos, pcs, ci, keys = state
+        st = steps[p][pos[p]]
+        exp = expected_step(p, pcs, ci)
+        if exp is None or exp[0] != st[0] or (exp[1] is not None and exp[1] != st[1]):
+            return "mismatch"
+        kind, key, res = st[0], st[1], st[2]
+        pc, c = pcs[p], ci[p]
+        if kind == "in":
+            if res != (key in keys):
+                return None
+            npc, nc = (("hit", key) if res else ("miss", key)), c
+        elif kind == "load":
+            if res != (-n_ids <= key < n_ids):
+                return "mismatch"
+            npc, nc = (("set", key), c) if res else (("start",), c + 1)
+        elif kind == "set":
+            keys = keys | {key}
+            npc, nc = ("start",), c + 1
+        elif kind == "get":
+            if res != (key in keys):
+                return None
+            npc, nc = (("start",), c + 1) if res else (("miss", key), c)
+        elif kind == "clear":
+            keys = frozenset()
+            npc, nc = ("start",), c + 1
+        else:                               # len, mut
+            npc, nc = ("start",), c + 1
+        return (pos[:p] + (pos[p] + 1,) + pos[p + 1:], pcs[:p] + (npc,) + pcs[p + 1:], ci[:p] + (nc,) + ci[p + 1:], keys)
+
+    def candidates(state):
+        pos = state[0]
+        pend = [p for p in range(nproc) if pos[p] < len(steps[p])]
+        if realtime:
+            ok = []
+            for p in pend:
+                t0 = steps[p][pos[p]][3]
+                if all(q == p or steps[q][pos[q]][4] >= t0 for q in pend):
+                    ok.append(p)
+            pend = ok
+        # local steps commute with everything: take one right away
+        for p in pend:
+            if steps[p][pos[p]][0] in ("load", "len", "mut"):
+                return [p]
+        return sorted(pend, key=lambda p: steps[p][pos[p]][3])
+
+    total = sum(len(st) for st in steps)
+    init = (tuple([0] * nproc), tuple([("start",)] * nproc), tuple([0] * nproc), frozenset())
+    stack = [(init, candidates(init), 0)]
+    sched = []
+    dead = set()
+    nodes = 0
+    best = []
+    while stack:
+        state, cands, k = stack.pop()
+        if len(sched) == total:
+            # every process must also have finished its program
+            if not all(state[2][p] == len(progs[p]) and state[1][p] == ("start",) for p in range(nproc)):
+                return "mismatch", list(sched), nodes
+            if state[3] == final_keys:
+                return "found", list(sched), nodes
+            dead.add((state[0], state[3]))
+            sched.pop()
+            continue
+        if k >= len(cands):
+            dead.add((state[0], state[3]))
+            if sched:
+                sched.pop()
+            continue
+        stack.append((state, cands, k + 1))
+        p = cands[k]
+        nodes += 1
+        if nodes > budget:
+            return "budget", best, nodes
+        nxt = apply(state, p)
+        if nxt == "mismatch":
+            return "mismatch", list(sched) + [p], nodes
+        if nxt is None or (nxt[0], nxt[3]) in dead:
+            continue
+        sched.append(p)
+        if len(sched) > len(best):
+            best = list(sched)
+        stack.append((nxt, candidates(nxt), 0))
+    return "none", best, nodes
 
 
 def run_impl(case):
@@ -603,13 +980,15 @@ def op_events_ok(p, op, evs, ids):
         return len(evs) == 2 and evs[0] == ["L", p, i] and evs[1][0] == "R" and evs[1][2] == i
     if op[0] in ("dispose", "clear"):
         return evs == [["C", p]]
+    if op[0] == "mut":
+        return evs == [["M", p]]
     return len(evs) == 1 and evs[0][0] == "N"
 
 
 def oracle(case, obs):
     if "harness_exception" in obs:
         return "harness exception: " + obs["harness_exception"] + obs.get("tb", "")
-    ids, has_tf, kind = case["ids"], case["has_tf"], case["kind"]
+    ids, has_tf, kind = case["ids"], tf_mode(case) is not None, case["kind"]
     log, draws = obs["log"], obs["draws"]
     nproc = len(draws)
     # 1. every access returns transform(base[i]) with a fresh ticket, or the base's own exception
@@ -638,7 +1017,8 @@ def oracle(case, obs):
             exp = want
         if r[1] != exp:
             return (f"process {p}: access #{k} cached[{i}] returned code {r[1]}, expected {exp} "
-                    f"(= transform ticket {draws[p][k] if has_tf else None} around sample id {want})")
+                    f"(= transform [{tf_mode(case)}] with ticket {draws[p][k] if has_tf else None} of sample id {want}; "
+                    f"payload type {case['ptype']})")
         nret[p] += 1
     for p in range(nproc):
         if has_tf and len(draws[p]) != nret[p]:
@@ -673,6 +1053,10 @@ def oracle(case, obs):
                     return "harness: clear event missing"
                 pos += 1
                 have[c] = set()
+            elif name == "mut":
+                if pos >= len(log) or log[pos] != ["M", p]:
+                    return "harness: mut event missing"
+                pos += 1
             else:
                 if pos >= len(log) or log[pos][:2] != ["N", p]:
                     return "harness: len event missing"
@@ -716,7 +1100,11 @@ def oracle(case, obs):
 # Coq rendering
 # ---------------------------------------------------------------------------
 def coq_cmd(op):
-    return C("CGet", op[1]) if op[0] == "get" else (Raw("CLen") if op[0] == "len" else Raw("CClear"))
+    if op[0] == "get":
+        return C("CGet", op[1])
+    if op[0] == "mut":
+        return C("CMut", op[1])
+    return Raw("CLen") if op[0] == "len" else Raw("CClear")
 
 
 def coq_ev(e):
@@ -726,6 +1114,8 @@ def coq_ev(e):
         return C("EClear", Nat(e[1]))
     if e[0] == "N":
         return C("ELen", Nat(e[1]), e[2])
+    if e[0] == "M":
+        return C("EMut", Nat(e[1]))
     r = e[4]
     res = Raw("RKeyError") if r == "KeyError" else Raw("RBaseError") if r == "BaseError" else C("RVal", r[1])
     return C("ERet", Nat(e[1]), e[2], Nat(e[3]), res)
@@ -746,16 +1136,39 @@ def coq_case(case, obs):
         hist = [(Nat(op[0]), coq_cmd(op[1:])) for op in case["hist"]]
     else:
         progs = [[coq_cmd(op) for op in prog] for prog in case["progs"]]
-        sched = [Nat(p) for p in case.get("sched", [])]
-    return coq(Rec(c_kind=Nat(kind), c_ids=list(case["ids"]), c_has_tf=bool(case["has_tf"]),
+        sched = [Nat(p) for p in (case.get("sched", []) if kind == 1 else obs.get("sched", []))]
+    mode = tf_mode(case)
+    return coq(Rec(c_kind=Nat(kind), c_ids=list(case["ids"]), c_has_tf=mode is not None,
+                   c_byref=case["ptype"] in BYREF, c_inplace=mode != "ticket",
                    c_draws=[list(d) for d in obs["draws"]], c_caches=caches, c_hist=hist, c_progs=progs,
-                   c_sched=sched, c_log=[coq_ev(e) for e in obs["log"]],
+                   c_sched=sched, c_lin=(kind == 2 and obs.get("lin") != "budget"),
+                   c_log=[coq_ev(e) for e in obs["log"]],
                    c_dicts=[[(k, v) for k, v in d] for d in obs["dicts"]]))
 
 
 # ---------------------------------------------------------------------------
 # generation
 # ---------------------------------------------------------------------------
+def gen_payload(rng, n):
+    """(ptype, transform mode, ids)"""
+    r = rng.random()
+    ptype = "falsy" if r < 0.12 else rng.choice(sorted(BYREF)) if r < 0.55 else rng.choice(PTYPES[:-1])
+    if ptype == "falsy":           # every falsy / sentinel-looking value; nothing to modify in place
+        ids = [rng.randrange(N_FALSY) for _ in range(n)] if rng.random() < 0.3 else rng.sample(range(N_FALSY), min(n, N_FALSY))
+        ids += [rng.randrange(N_FALSY) for _ in range(n - len(ids))]
+        if n and rng.random() < 0.5:
+            ids[rng.randrange(n)] = 0                   # None itself
+        mode = rng.choice([None, None, "ticket"])
+    else:
+        ids = gen_ids(rng, n)
+        mode = rng.choice([None, "ticket", "ticket", "inplace", "inplace"])
+    return ptype, mode, ids
+
+
+def gen_mut(rng):
+    return ["mut", rng.choice([1000, 5000, 7, 1])]
+
+
 def gen_ids(rng, n):
     if rng.random() < 0.15 and n:
         pool = rng.sample(range(900), max(1, n - 1))      # a duplicated sample
@@ -791,14 +1204,19 @@ def gen_seq(rng, big=False):
                 op.append("np")
             hist.append(op)
             if rng.random() < 0.25:
+                hist.append([p] + gen_mut(rng))           # the consumer writes to what it got
+            if rng.random() < 0.3:
                 hist.append(list(op))                     # repeated get
-        elif r < 0.80:
+        elif r < 0.78:
             hist.append([p, "dispose"])
-        elif r < 0.88:
+        elif r < 0.84:
             hist.append([p, "clear"])
+        elif r < 0.92:
+            hist.append([p] + gen_mut(rng))
         else:
             hist.append([p, "len"])
-    return {"kind": "seq", "ptype": rng.choice(PTYPES), "ids": gen_ids(rng, n), "has_tf": rng.random() < 0.8,
+    ptype, mode, ids = gen_payload(rng, n)
+    return {"kind": "seq", "ptype": ptype, "ids": ids, "has_tf": mode is not None, "tf": mode,
             "handles": handles, "how": how, "hist": hist, "own_manager": rng.random() < 0.1}
 
 
@@ -809,8 +1227,8 @@ def gen_prog(rng, n, hot, role):
         if role == "clearer":
             prog.append(["dispose"] if r < 0.7 else ["clear"] if r < 0.85 else ["get", rng.choice(hot)])
         else:
-            prog.append(["get", rng.choice(hot)] if r < 0.8 else ["dispose"] if r < 0.9 else ["len"]
-                        if r < 0.95 else ["get", gen_index(rng, n)])
+            prog.append(["get", rng.choice(hot)] if r < 0.7 else gen_mut(rng) if r < 0.82 else ["dispose"] if r < 0.9
+                        else ["len"] if r < 0.95 else ["get", gen_index(rng, n)])
     return prog
 
 
@@ -832,7 +1250,8 @@ def gen_sched(rng, big=False):
         sched = [k % np_ for k in range(rng.randint(0, total + 4))]
     if rng.random() < 0.5:
         sched += [p for p in range(np_) for _ in range(4 * len(progs[p]))]   # let everybody finish
-    return {"kind": "sched", "ptype": rng.choice(PTYPES), "ids": gen_ids(rng, n), "has_tf": rng.random() < 0.8,
+    ptype, mode, ids = gen_payload(rng, n)
+    return {"kind": "sched", "ptype": ptype, "ids": ids, "has_tf": mode is not None, "tf": mode,
             "progs": progs, "sched": sched}
 
 
@@ -848,10 +1267,37 @@ def directed_sched():
     return out
 
 
+def directed_alias():
+    """accesses repeated by one holder / spread over holders with an in-place transform or a consumer write in between:
+    what is handed out must never be the cached object itself"""
+    out = []
+    for ptype in ("tensor", "tuple", "nested_t", "ndarray", "list", "dict_t"):
+        for mode in ("inplace", None, "ticket"):
+            out.append({"kind": "seq", "ptype": ptype, "ids": [3, 4, 5], "has_tf": mode is not None, "tf": mode,
+                        "handles": [0, 0], "how": ["kw", "pickle"], "own_manager": False,
+                        "hist": [[0, "get", 1], [0, "mut", 1000], [0, "get", 1], [1, "get", 1], [1, "mut", 7], [0, "get", 1],
+                                 [1, "get", 2], [1, "get", 2]]})
+            out.append({"kind": "sched", "ptype": ptype, "ids": [3, 4, 5], "has_tf": mode is not None, "tf": mode,
+                        "progs": [[["get", 1], ["mut", 5000], ["get", 1]], [["get", 1], ["get", 1]]],
+                        "sched": [0, 0, 0, 1, 1, 0, 1, 1, 0, 0]})
+    return out
+
+
+def directed_falsy():
+    out = []
+    for mode in (None, "ticket"):
+        out.append({"kind": "seq", "ptype": "falsy", "ids": list(range(N_FALSY)), "has_tf": mode is not None, "tf": mode,
+                    "handles": [0, 0], "how": ["kw", "copy"], "own_manager": False,
+                    "hist": [[p, "get", i] for i in range(N_FALSY) for p in (0, 1, 0)] + [[1, "dispose"]]
+                            + [[p, "get", -i - 1] for i in range(N_FALSY) for p in (1, 0)]})
+    return out
+
+
 EXH_PROGS = [
     [[["get", 0], ["get", 0]], [["get", 0]], [["dispose"]]],
     [[["get", 1], ["get", 0]], [["get", 0], ["get", 1]], [["dispose"]]],
     [[["get", 0], ["get", 0]], [["get", 0], ["get", 0]], [["clear"]]],
+    [[["get", 0], ["mut", 1000], ["get", 0]], [["get", 0]], [["dispose"]]],      # run with tensors + in-place transform
 ]
 
 
@@ -860,43 +1306,51 @@ def exhaustive_sched(max_len=8):
     for k, progs in enumerate(EXH_PROGS):
         for ln in range(max_len + (1 if k == 0 else 0)):
             for sched in itertools.product(range(3), repeat=ln):
-                yield {"kind": "sched", "ptype": "int", "ids": [5, 6], "has_tf": True, "progs": progs,
-                       "sched": list(sched), "exh": True}
+                if k == 3:
+                    yield {"kind": "sched", "ptype": "tensor", "ids": [5, 6], "has_tf": True, "tf": "inplace", "progs": progs,
+                           "sched": list(sched), "exh": True}
+                else:
+                    yield {"kind": "sched", "ptype": "int", "ids": [5, 6], "has_tf": True, "progs": progs,
+                           "sched": list(sched), "exh": True}
 
 
-def gen_procs(rng, k):
+def gen_procs(rng, k, small=False):
     n = rng.choice([2, 3, 4])
-    ids = gen_ids(rng, n)
-    if k % 3 == 0:      # one reader hammers one index while another process keeps clearing
+    if k % 3 == 0 and not small:      # one reader hammers one index while another process keeps clearing
         progs = [[["get", 0]] * 400, [["dispose"]] * 400] + ([[["get", 0]] * 300] if k % 2 else [])
     else:
         np_ = rng.choice([2, 3])
         progs = []
         for p in range(np_):
             prog = []
-            for _ in range(rng.randint(10, 40)):
+            for _ in range(rng.randint(10, 40) if not small else rng.randint(4, 12)):
                 r = rng.random()
-                prog.append(["get", rng.randrange(-n, n + 1)] if r < 0.8 else ["dispose"] if r < 0.93 else ["len"])
+                prog.append(["get", rng.randrange(-n, n + 1)] if r < 0.7 else gen_mut(rng) if r < 0.8
+                            else ["dispose"] if r < 0.93 else ["len"])
             progs.append(prog)
-    return {"kind": "procs", "ptype": rng.choice(PTYPES), "ids": ids, "has_tf": rng.random() < 0.8, "progs": progs,
+    ptype, mode, ids = gen_payload(rng, n)
+    return {"kind": "procs", "ptype": ptype, "ids": ids, "has_tf": mode is not None, "tf": mode, "progs": progs,
             "pickled": k % 2 == 1}
 
 
 def gen_cases(rng, tier):
-    cases = directed_sched()
+    cases = directed_sched() + directed_alias() + directed_falsy()
     if tier == "quick":
-        cases += [gen_seq(rng) for _ in range(200)]
-        cases += [gen_sched(rng) for _ in range(700)]
+        cases += [gen_seq(rng) for _ in range(220)]
+        cases += [gen_sched(rng) for _ in range(640)]
+        cases += [gen_procs(rng, k, small=True) for k in range(4)]
         return cases
     cases += [gen_seq(rng) for _ in range(700)] + [gen_seq(rng, big=True) for _ in range(300)]
     cases += [gen_sched(rng) for _ in range(4000)]
     cases += list(exhaustive_sched(8))
-    cases += [gen_procs(rng, k) for k in range(24)]
+    cases += [gen_procs(rng, k) for k in range(24)] + [gen_procs(rng, k, small=True) for k in range(12)]
     return cases
 
 
 def search_cases(rng, tier):
     yield from directed_sched()
+    yield from directed_alias()
+    yield from directed_falsy()
     yield from exhaustive_sched(7)
     for k in range(20000):
         yield gen_sched(rng) if k % 3 else gen_seq(rng)
@@ -907,13 +1361,19 @@ def shrink(c):
         h = c["hist"]
         for i in range(len(h)):
             yield {**c, "hist": h[:i] + h[i + 1:]}
-        if c["has_tf"]:
-            yield {**c, "has_tf": False}
-        if c["ptype"] != "int":
+        if tf_mode(c) is not None:
+            yield {**c, "has_tf": False, "tf": None}
+        if c["ptype"] not in ("int", "falsy"):
+            yield {**c, "ptype": "tensor"}
             yield {**c, "ptype": "int"}
         for i, op in enumerate(h):
-            if len(op) > 3:
+            if len(op) > 3 and op[1] == "get":
                 yield {**c, "hist": h[:i] + [op[:3]] + h[i + 1:]}
+        nh = len(c["handles"])
+        if nh > 1 and not any(op[0] == nh - 1 for op in h):
+            yield {**c, "handles": c["handles"][:-1], "how": c["how"][:-1]}
+        if c.get("own_manager"):
+            yield {**c, "own_manager": False}
     elif c["kind"] == "sched":
         s = c["sched"]
         for i in range(len(s)):
@@ -921,7 +1381,8 @@ def shrink(c):
         for p, prog in enumerate(c["progs"]):
             for i in range(len(prog)):
                 yield {**c, "progs": c["progs"][:p] + [prog[:i] + prog[i + 1:]] + c["progs"][p + 1:]}
-        if c["ptype"] != "int":
+        if c["ptype"] not in ("int", "falsy"):
+            yield {**c, "ptype": "tensor"}
             yield {**c, "ptype": "int"}
     else:
         for p, prog in enumerate(c["progs"]):
@@ -944,7 +1405,13 @@ def _switch_inside_access(case, obs):
 def features(case, obs):
     yield "kind=" + case["kind"]
     yield "ptype=" + case["ptype"]
-    yield "transform=%s" % case["has_tf"]
+    yield "transform=%s" % tf_mode(case)
+    yield "transport=%s" % ("by-reference (tensors)" if case["ptype"] in BYREF else "by-value")
+    if case["ptype"] == "falsy" and 0 in case["ids"]:
+        yield "payload None"
+    cmds = [op[1:] for op in case["hist"]] if case["kind"] == "seq" else [op for prog in case["progs"] for op in prog]
+    if any(op[0] == "mut" for op in cmds):
+        yield "consumer-write"
     if "log" not in obs:
         yield "harness_exception"
         return
@@ -983,6 +1450,10 @@ def features(case, obs):
             yield "sched:exhaustive"
         if case["kind"] == "procs" and sum(1 for e in log if e[0] == "L") > len({e[2] for e in log if e[0] == "L"}):
             yield "procs:reloads (clears interleaved with reads)"
+        if case["kind"] == "procs":
+            yield "procs:schedule-search=%s%s" % (obs.get("lin"), "" if obs.get("lin_realtime", True) else " (NOT in real-time order)")
+            if obs.get("overlaps"):
+                yield "procs:overlapping proxy operations"
         if obs.get("finished") and all(obs["finished"]):
             yield "sched:all-finished"
     if any(e[0] == "R" and e[4] == "BaseError" for e in log):
@@ -1011,7 +1482,7 @@ def nontrivial_key(case, obs):
         hit = sum(1 for e in log if e[0] == "R") > sum(1 for e in log if e[0] == "L")
         if not (hit and _reload_after_clear(log)):
             return None
-        return ("seq", tuple(case["handles"]), tuple(tuple(op[:3]) for op in case["hist"]))
+        return ("seq", case["ptype"], tf_mode(case), tuple(case["handles"]), tuple(tuple(op[:3]) for op in case["hist"]))
     if case["kind"] == "sched":
         if not _switch_inside_access(case, obs):
             return None
